@@ -1,6 +1,7 @@
 """Apply a textual mutation to a scratch copy of /repo's biom package and run the
 prover on one contract: a sound engine + strong contract must fail a named
-obligation.  usage: mutate.py <contract-substring> <file> <old> <new>"""
+obligation.  usage: [IN='def name'] mutate.py <contract-substring> <file> <old> <new>
+(IN: the first occurrence of <old> after that text is replaced instead of the first one in the file)"""
 import os, shutil, subprocess, sys, tempfile
 key, rel, old, new = sys.argv[1:5]
 tmp = tempfile.mkdtemp(prefix='pyvc_mut_')
@@ -9,7 +10,8 @@ try:
     p = os.path.join(tmp, rel)
     s = open(p).read()
     assert s.count(old) >= 1, 'pattern not found'
-    open(p, 'w').write(s.replace(old, new, 1))
+    at = s.index(os.environ['IN']) if os.environ.get('IN') else 0
+    open(p, 'w').write(s[:at] + s[at:].replace(old, new, 1))
     env = dict(os.environ, VERIF_REPO=tmp, BUDGET=os.environ.get('BUDGET', '5'))
     r = subprocess.run([sys.executable, '-m', 'pyvc.prove', key], env=env, capture_output=True, text=True, cwd='/verif')
     bad = [l for l in r.stdout.split('\n') if l.strip().startswith(('FAIL', '???', 'ERROR'))]
